@@ -20,6 +20,7 @@ EXPLANATION = (
     "use_path maps a library name to the library, a leading `/` to the root directory, `/` alone to exports.sy, a trailing "
     "`/` to <name>/exports.sy and anything else to <name>.sy next to the importing file, as the guide documents; "
     "(COLLISION) importing a different thing under an occupied name is an error."
+    ' (COLLISION compares-entries) whether an occupied name is a collision is decided by comparing the existing entry with the one being inserted.'
 )
 UNDECIDED = ("behavioural equivalence of a program and its partitions; re-exports resolve only if the exporting module was processed "
              "earlier (single pass in visit order) - reported as information.")
@@ -187,11 +188,28 @@ def import_names(F, rep):
             if v in ("Use", "FromUse"):
                 # collisions: Occupied with a different entry -> error
                 occ = False
+                compares = False
                 for mm in nodes(arm["body"], "Match"):
+                    inserted = set()
+                    for a2 in mm["arms"]:
+                        if any((pat_variant(x) or "").endswith("Entry::Vacant") for x in pat_alternatives(a2["pat"])):
+                            for c in nodes(a2["body"], "MethodCall"):
+                                if c["m"] == "insert":
+                                    inserted |= {x["hid"] for x in nodes(c["args"], "Path") if x.get("res") == "Local"}
                     for a2 in mm["arms"]:
                         if any((pat_variant(x) or "").endswith("Entry::Occupied") for x in pat_alternatives(a2["pat"])) and a2.get("guard"):
                             occ = any(c["m"] == "push" and "errs" in pp(c["recv"]) for c in nodes(a2["body"], "MethodCall"))
+                            bound = {b["hid"] for b in pat_bindings(a2["pat"])}
+                            for g in nodes(a2["guard"], "Binary"):
+                                if g.get("op") in ("Ne", "Eq"):
+                                    sides = [{x["hid"] for x in nodes(g[k], "Path") if x.get("res") == "Local"} for k in ("l", "r")]
+                                    if (sides[0] & bound and sides[1] & inserted) or (sides[1] & bound and sides[0] & inserted):
+                                        compares = g.get("op") == "Ne"
                 rep.ob("COLLISION", "%s|occupied" % v, occ, "%s: a different entry already under that name is reported as a collision" % v, line_of(arm))
+                rep.ob("COLLISION", "%s|compares-entries" % v, compares,
+                       "%s: whether an occupied name is a collision is decided by comparing the existing entry with the entry being "
+                       "inserted (`occ.get() != &to_insert`), so a second import is tolerated only when it denotes the same thing" % v,
+                       line_of(arm))
     # parser side: alias vs implicit name
     st = F.fn(P + "statement::statement")
     txt = pp(fn_body(st))
